@@ -119,6 +119,10 @@ def _setof_body(ctx, m):
                     isinstance(pairs.elt.elts[0], ast.Call) and call_name(pairs.elt.elts[0]) == 'ljust':
                 pads.append(pairs.elt.elts[0])
                 undec = [n for n in body if isinstance(n, ast.ListComp) and isinstance(n.elt, ast.Subscript) and const_int(n.elt.slice) == 1]
+                # `[member for _, member in pairs]`: the second element taken by unpacking
+                undec += [n for n in body if isinstance(n, (ast.ListComp, ast.GeneratorExp)) and isinstance(n.elt, ast.Name) and
+                          len(n.generators) == 1 and isinstance(n.generators[0].target, ast.Tuple) and len(n.generators[0].target.elts) == 2 and
+                          isinstance(n.generators[0].target.elts[1], ast.Name) and n.generators[0].target.elts[1].id == n.elt.id]
                 if not undec:
                     det.append('the padded copies, not the members, are emitted (no `[x[1] for x in ...]` after the sort)')
                 continue
